@@ -424,6 +424,31 @@ def _tree_chunk(items):
             n += 1
             for clause, detail in TC.check_tree(text, doc, flags) + TC.check_no_location(text, doc, entry, flags):
                 fails.append((clause, {"text": text, "entry": entry, "fragment_variables": efv}, detail))
+            if not efv:
+                # spans are offsets into the SUBMITTED text, whichever way it is submitted: str and UTF-8 bytes, with and without a leading byte order mark
+                # (which is a character of the text like any other ignored one), give the same tree with the same spans
+                for label, sub in (("bytes", text.encode("utf-8")), ("bom+str", "\ufeff" + text), ("bom+bytes", ("\ufeff" + text).encode("utf-8"))):
+                    try:
+                        other = _entry_call(entry)(sub, **flags)
+                    except Exception as e:
+                        fails.append(("tree:same-tree-for-str-and-bytes", {"text": text, "entry": entry, "submitted_as": label}, "%s route raised %r" % (label, e)))
+                        continue
+                    want = doc if label == "bytes" else None
+                    if label.startswith("bom"):
+                        ref = _entry_call(entry)("\ufeff" + text, **flags) if label == "bom+bytes" else None
+                        if label == "bom+str":
+                            # every span of the BOM-prefixed text is the span of the plain text shifted by one character
+                            shifted = [(type(a).__name__, a.loc) for _p, a in TC.walk(other)]
+                            plain = [(type(a).__name__, (a.loc[0] + 1, a.loc[1] + 1) if a.loc else None) for _p, a in TC.walk(doc)]
+                            root_ok = shifted[1:] == plain[1:]          # (the root's span may or may not include the mark)
+                            if not root_ok:
+                                fails.append(("tree:same-tree-for-str-and-bytes", {"text": text, "entry": entry, "submitted_as": label},
+                                              "spans of the text with a leading byte order mark are not the spans of the plain text shifted by one"))
+                            continue
+                        want = ref
+                    if other != want:
+                        fails.append(("tree:same-tree-for-str-and-bytes", {"text": text, "entry": entry, "submitted_as": label},
+                                      "submitting the text as %s gives a different tree (or different spans) than submitting it as str" % label))
             nodes += sum(1 for _ in TC.walk(doc))
     return n, nodes, fails
 
